@@ -17,6 +17,17 @@ SCENARIOS = [
                                             {"op": "set", "name": "use.lua", "text": "---@type Foo\nlocal v\nprint(v.one, v.two, v.x, v.y)\n"},
                                             {"op": "remove", "name": "a.lua"},
                                             {"op": "set", "name": "use.lua", "text": "---@type Foo\nlocal v\nprint(v.one, v.two, v.x, v.y)\n"}]},
+    {"id": "shared_member_two_files", "steps": [{"op": "set", "name": "a.lua", "text": "---@class (partial) Foo\n---@field x integer\n---@field only_a string\n"},
+                                                {"op": "set", "name": "b.lua", "text": "---@class (partial) Foo\n---@field x integer\n"},
+                                                {"op": "set", "name": "use.lua", "text": "---@type Foo\nlocal v\n---@type integer\nlocal n = v.x\nprint(n, v.only_a)\n"},
+                                                {"op": "remove", "name": "a.lua"},
+                                                {"op": "set", "name": "use.lua", "text": "---@type Foo\nlocal v\n---@type integer\nlocal n = v.x\nprint(n, v.only_a)\n"}]},
+    {"id": "shared_method_two_files", "steps": [{"op": "set", "name": "t.lua", "text": "---@class T\nT = {}\n"},
+                                                {"op": "set", "name": "a.lua", "text": "function T:m() return 1 end\n"},
+                                                {"op": "set", "name": "b.lua", "text": "function T:m() return 1 end\n"},
+                                                {"op": "set", "name": "use.lua", "text": "local r = T:m()\nprint(r)\n"},
+                                                {"op": "remove", "name": "a.lua"},
+                                                {"op": "set", "name": "use.lua", "text": "local r = T:m()\nprint(r)\n"}]},
     {"id": "loose_file_closed", "steps": [{"op": "set", "name": "keep.lua", "text": "---@class Keep\n---@field a integer\nKeepGlobal = {}\n"},
                                            {"op": "set", "path": "/c10-not-a-workspace-root/scratch/loose.lua", "text": "---@class LooseClass\n---@field x integer\nLooseGlobal = 1\nfunction loose_fn() return 1 end\n"},
                                            {"op": "set", "name": "use.lua", "text": "---@type LooseClass\nlocal v = nil\nlocal n = LooseGlobal\nlocal r = loose_fn()\nprint(v, n, r, KeepGlobal)\n"},
